@@ -408,7 +408,12 @@ def _merge_single_markers(
     from dep_logic.markers.union import MarkerUnion
 
     if {marker1.name, marker2.name} == PYTHON_VERSION_MARKERS:
-        return _merge_python_version_single_markers(marker1, marker2, merge_class)
+        try:
+            return _merge_python_version_single_markers(marker1, marker2, merge_class)
+        except InvalidVersionSpecifier:
+            # python_full_version != "3.8.0+": a literal that is not a version has no
+            # specifier view, leave the two atoms alone
+            return None
 
     if marker1.name != marker2.name:
         return None
